@@ -89,7 +89,6 @@ class CommonHeader:
         """
         return (
             (self.nh.value << (4 + 8 * 7))
-            | (self.reserved << (8 * 7))
             | (self.ht.value << (4 + 8 * 6))
             | (self.hst.value << 8 * 6)
             | (self.tc.encode_to_int() << 8 * 5)
